@@ -605,6 +605,10 @@ func zooDoc(which int) string {
 				if which == 1 {
 					v1 = v2
 				}
+				// texts that need escaping on the way out (a shared escape buffer shows as another document's text)
+				if attr == "alt" || attr == "title" {
+					v1 = fmt.Sprintf(`the "%s" one of %d, said "%s"`, v1, which, strings.Repeat(v1, 3+which))
+				}
 				x.Set(attr, v1)
 			}
 		})
@@ -841,6 +845,9 @@ func init() {
 	for _, d := range []string{
 		`<mjml><mj-head><mj-style>.x { color: red; }</mj-style></mj-head><mj-body><mj-section><mj-column><mj-text align="right">R</mj-text></mj-column></mj-section></mj-body></mjml>`,
 		`<mjml><mj-head><mj-title>Only here</mj-title><mj-preview>Preview only here</mj-preview><mj-breakpoint width="320px"/></mj-head><mj-body width="480px"><mj-section><mj-column><mj-text align="right">R</mj-text></mj-column></mj-section><mj-wrapper><mj-section><mj-group><mj-column><mj-text>g</mj-text></mj-column></mj-group></mj-section></mj-wrapper><mj-hero><mj-text>h</mj-text></mj-hero></mj-body></mjml>`,
+		// a preview and a title that hold nothing but white space (early returns in the head components), next to the document
+		// above that has real ones
+		"<mjml><mj-head><mj-title>  </mj-title><mj-preview>\n    </mj-preview></mj-head><mj-body><mj-section><mj-column><mj-text>blank preview</mj-text></mj-column></mj-section></mj-body></mjml>",
 		// no body at all: every path gives the sentinel, whatever was compiled before (head content must not leak either way)
 		`<mjml><mj-head><mj-title>Body-less</mj-title><mj-attributes><mj-all font-family="Oswald"/></mj-attributes></mj-head></mjml>`,
 	} {
